@@ -14,7 +14,11 @@ focus = ''
 if rnd:
     k = (ord(rnd[0]) - ord('a')) % len(mechs)
     m = mechs[k]
-    if rnd[0] >= 'h':
+    if rnd[0] >= 'i':
+        k = (ord(rnd[0]) - ord('a') + 6) % len(mechs)
+        m = mechs[k]
+        focus = '\n  Focus: put your change in or around this mechanism of the implementation: %s (%s). Prefer a FAST PATH: add (or widen) a shortcut that handles the common case more cheaply - skipping a conversion, a copy, a bounds or type check, a table lookup, a loop over something that is usually empty or usually has one element - whose guard condition is slightly too generous, so that a few uncommon but legal inputs or states take the shortcut although they need the full treatment (for example: the value is usually an integer / positive / below 256 / ASCII / already normalised; the list usually has one entry; the two operands usually have the same type; the file is usually at its end; the screen is usually in text mode; the string usually lives in string space). Everything the shortcut was meant for, and everything that clearly fails the guard, must behave exactly as before.' % (m.get('name'), m.get('where'))
+    elif rnd[0] >= 'h':
         k = (ord(rnd[0]) - ord('a') + 5) % len(mechs)
         m = mechs[k]
         focus = '\n  Focus: put your change in or around this mechanism of the implementation: %s (%s). Prefer a fault that needs a LONG-LIVED session or REUSE to show: something that accumulates or drifts over many operations (a leak of a few bytes or of one table entry per call, a counter or cursor that creeps or wraps, a cache or list that keeps stale entries, rounding that compounds), or a resource that is handed out again after it was released (a file number, record buffer or lock reopened after CLOSE, string space reused after a garbage collection, an array or variable re-created after ERASE / CLEAR / NEW, a screen page or mode entered a second time, a program line re-entered after DELETE, a second RUN of the same program in the same session). A single use from a fresh session must behave exactly as before; only the repetition, the reuse or the sheer number of operations brings the fault out.' % (m.get('name'), m.get('where'))
